@@ -353,32 +353,48 @@ example : Answered exEnv exOther (blockOf exEnv exBackup exTip reqOK 77 7 84 1) 
 
 /-! ### 7. The witness of the block a validator hands to its ledger (machine model, Model/DbftMach.lean)
 
-Full statement: in every run of honest validators, the block a validator's consensus hands to its ledger
-(`Out.block b sigs`: consensus.go:646-697 processBlock / getBlockWitness) carries M signatures OF THAT BLOCK, so the
-validator's own ledger and every other one accept it. FALSE for the code as written: `relabelled_commit_in_witness`
-below is the replay of known finding `relabelled-commit-witness` (scripted case 0 of the harness reproduces it on
-the real services). Proved: the statement under the hypothesis that every Commit the validator holds for its view
-signs its header — which `onCommit` guarantees for every Commit that arrives while the header is at hand
-(`Mach.onCommit_checked`); the gap is a Commit stored BEFORE the PrepareRequest (dbft.go:355-357 checks the stored
-Commits while MakeHeader is still nil), and the only honest source of a wrong one is recovery_message.go GetCommits,
-which labels every relayed Commit with the recovery message's view. -/
+Statement: in every run of honest validators, the block a validator's consensus hands to its ledger
+(`Out.block b sigs`: consensus.go:646-697 processBlock / getBlockWitness) carries signatures OF THAT BLOCK only, so
+the validator's own ledger and every other one accept its witness. It was FALSE before ec63204 (fixed defect
+`relabelled-commit-witness`: recovery_message.go GetCommits labelled every relayed Commit with the recovery message's
+view, and dbft checks the stored Commits while MakeHeader is still nil, dbft.go:355-357); with each relayed Commit
+keeping the view it was sent in, it is proved at full strength over the network of machines: a Commit held under the
+current view was signed for a block of this height and view, M validators prepared that block, and a view has one
+prepared block — the request held (`Mach.good_commitsSign`, through the refinement of section 8). -/
 
-/-- C19 (block witness, partial): if every Commit held for the current view signs the header, the block handed to
-the ledger carries only signatures of that block. -/
-theorem block_witness_valid_partial (e : Mach.Env) (w : Mach.W) (b : Block) (hh : w.nd.header = some b)
+/-- C19 (block witness, full statement): in every reachable network of validator machines and whatever event
+happens next, every block the machine concerned hands to its ledger carries only signatures of that block. -/
+theorem block_witness_valid (e : Mach.Env) (ms : Mach.MNet) (hr : Mach.MReachable e ms) (ev : Mach.NEv)
+    (inp : Mach.Inp) (hen : Mach.NEnabled e ms inp ev) (b : Block) (sigs : List (Nat × Bool))
+    (hb : Mach.Out.block b sigs ∈ Mach.evOuts e ms inp ev) : ∀ t ∈ sigs, t.2 = true :=
+  Mach.mach_block_witness_valid e ms hr ev inp hen b sigs hb
+
+-- non-vacuity: in the two-machine run `Mach.xRun` the last event (validator 1 receives validator 0's Commit) makes
+-- validator 1 hand the block to its ledger with both signatures valid
+set_option maxRecDepth 100000 in
+example : ((Mach.runNet Mach.xEnv (Mach.minit Mach.xEnv) (Mach.xRun.take 5)).map fun s =>
+    (Mach.evOuts Mach.xEnv s Mach.xi (.deliver 1 (Mach.xCM 0))).filter fun o => match o with | .block _ _ => true | _ => false) =
+    some [.block ⟨1, 0, 1⟩ [(0, true), (1, true)]] := by decide
+
+/-- the local form: if every Commit held for the current view signs the header, the block handed to the ledger
+carries only signatures of that block (dbft.go:620-642 guarantees the premise for Commits that arrive while the
+header is at hand, `Mach.onCommit_checked`) -/
+theorem block_witness_valid_of_checked (e : Mach.Env) (w : Mach.W) (b : Block) (hh : w.nd.header = some b)
     (hs : Mach.CommitsSign w.nd b) (b' : Block) (sigs : List (Nat × Bool))
     (hout : Mach.Out.block b' sigs ∈ (Mach.checkCommit e w).out) :
     Mach.Out.block b' sigs ∈ w.out ∨ (b' = b ∧ ∀ s ∈ sigs, s.2 = true) :=
   Mach.checkCommit_block_valid e w b hh hs b' sigs hout
 
-/-- C19 (NEGATION witness, known finding `relabelled-commit-witness`): seven honest validators, height 1. The events
-below are what validator 5 sees in the harness' scripted case `relabelled-commit` (only delays and one duplicate-free
-reordering; every payload was sent by its honest sender): it ends up handing its ledger block (1, view 1, p2) with
-validator 6's signature of the VIEW-0 block in the witness. -/
-theorem block_witness_invalid_witness :
-    (Mach.runEvents Mach.wEnv 5 (Mach.initNode Mach.wEnv 5) Mach.wEvents).2 =
+/-- C19 (regression, fixed defect `relabelled-commit-witness`, ec63204): the events validator 5 sees in the harness'
+scripted case `relabelled-commit` (seven honest validators, height 1). With GetCommits as fixed — a relayed Commit
+keeps its own view — validator 6's view-0 signature does not count in view 1 and nothing is handed to the ledger;
+under the OLD rule (label = the recovery message's view) the same events put that signature into the witness. -/
+theorem block_witness_regression :
+    ((Mach.runEvents Mach.wEnv 5 (Mach.initNode Mach.wEnv 5) Mach.wEvents).2 = [] ∧
+      (Mach.runEvents Mach.wEnv 5 (Mach.initNode Mach.wEnv 5) Mach.wEvents).1.blockProcessed = false) ∧
+    (Mach.runEvents Mach.wEnv 5 (Mach.initNode Mach.wEnv 5) (Mach.wEventsWith 1)).2 =
       [.block Mach.wb2 [(0, true), (2, true), (3, true), (5, true), (6, false)]] :=
-  Mach.relabelled_commit_in_witness
+  ⟨Mach.relabelled_commit_not_counted, Mach.relabelled_commit_in_witness_old_rule⟩
 
 /-! ### 8. The validator machines refine the guarded-command model (so sections 1–3 hold for them)
 
